@@ -35,6 +35,19 @@ RETYPE = ['[ link ]\n[ atoms ]\na2 {"resname": "A"}\n+b1 {"resname": "B", "repla
           '[ link ]\n[ atoms ]\na2 {"resname": "A"}\n+b1 {"resname": "B", "atype": "TB1"}\n[ angles ]\na2 +b1 +b2 2 99 9\n']
 
 
+BR_ITP = """[ moleculetype ]
+BR 1
+[ atoms ]
+1 C1 1 CEN X 1 0.0 1.0
+2 C2 2 ARM Y 2 0.0 1.0
+3 C3 3 TIP Z 3 0.0 1.0
+[ bonds ]
+1 2 1 0.30 5000
+1 3 1 0.31 6000
+"""
+BR_LINK = '[ link ]\n[ bonds ]\nZ {"resname": "TIP"} +X {"resname": "CEN"} 1 0.40 1000\n'
+
+
 def pipeline(ff, meta):
     MapToMolecule(ff).run_molecule(meta)
     with patched(al, tqdm=_Tqdm):
@@ -76,7 +89,7 @@ TRANSFORMS_Q = [("reversed ints", "same", "same", "same"), ("large ints", "rever
 @condition("C13.relabel",
            anchors=["polyply.src.map_to_molecule:MapToMolecule.add_blocks", "polyply.src.apply_links:ApplyLinks.run_molecule",
                     "polyply.src.apply_links:_check_relative_order", "polyply.src.map_to_molecule:MapToMolecule.match_nodes_to_blocks"],
-           rejects=(), must_cover=["relabelled", "reordered definitions", "multi-residue", "attribute-replacing link next to a typed link"],
+           rejects=(), must_cover=["relabelled", "reordered definitions", "multi-residue", "attribute-replacing link next to a typed link", "branched multi-residue copies"],
            stubs=["apply_links.tqdm -> plain iteration"],
            outside=["hash randomisation across processes (checks run with PYTHONHASHSEED=0 unless the caller sets it)", "residue graphs of more than 4 residues"],
            bounds={"quick": dict(nmax=3, transforms=TRANSFORMS_Q), "thorough": dict(nmax=4, transforms=TRANSFORMS_T)},
@@ -154,6 +167,22 @@ def relabel(sx, B):
         sx.cover("multi-residue")
         sx.claim(a[0] == b[0] and a[1] == b[1], "multi-residue fragments are mapped independently of node labelling",
                  lambda: "keys %r: %r vs %r" % (k2, a[0], b[0]))
+        # two directly connected copies of a *branched* three-residue molecule (centre bonded to an arm and to a tip, the tip of the
+        # first copy linked to the centre of the second): the copies are told apart by residue id, whatever the order of the edges
+        br_names = ["CEN", "ARM", "TIP"] * 2
+        br_edges = [(0, 1), (0, 2), (2, 3), (3, 4), (3, 5)]
+        eo = sx.sel("branched_edge_order", ["as given", "edges of the first centre swapped", "reversed"])
+        e2 = {"as given": br_edges, "edges of the first centre swapped": [br_edges[1], br_edges[0]] + br_edges[2:], "reversed": [(v, u) for u, v in br_edges][::-1]}[eo]
+        fib = {i: "BR" for i in range(6)}
+        outs = []
+        for edges_ in (br_edges, e2):
+            ffb = parse_ff([("itp", BR_ITP), ("ff", BR_LINK)])
+            mb = residue_graph(6, edges_, br_names, [1, 2, 3, 4, 5, 6], from_itp=fib, ff=ffb)
+            outs.append(pipeline(ffb, mb))
+        sx.cover("branched multi-residue copies")
+        sx.claim(outs[0][0] == outs[1][0] and outs[0][1] == outs[1][1], "connected copies of a branched multi-residue molecule do not depend on the edge order",
+                 lambda: "edge order %s:\n%r\n%r" % (eo, outs[0][1], outs[1][1]))
+        sx.claim(sum(outs[0][1].values()) == 5, "both copies keep their two bonds and the link bond joins them", lambda: repr(outs[0][1]))
 
 
 @condition("C13.history",
